@@ -46,6 +46,11 @@ func (fc *FnCtx) havocSynthetic(id string) {
 			fc.cur.m[k] = g.fresh("hs."+k, g.keys[k].sort)
 		}
 		g.assumeRaw(fmt.Sprintf("(<= %s %s)", old, g.get(fc.cur, "$alloc")))
+		for _, k := range g.keyOrder {
+			if g.keys[k].ref != "" {
+				g.heapBound(k, g.get(fc.cur, k), g.get(fc.cur, "$alloc"))
+			}
+		}
 		return
 	}
 	old := g.get(fc.cur, "$alloc")
@@ -56,6 +61,11 @@ func (fc *FnCtx) havocSynthetic(id string) {
 	}
 	if g.loopMods[id]["$alloc"] {
 		g.assumeRaw(fmt.Sprintf("(<= %s %s)", old, g.get(fc.cur, "$alloc")))
+	}
+	for _, k := range g.keyOrder {
+		if g.loopMods[id][k] && g.keys[k].ref != "" {
+			g.heapBound(k, g.get(fc.cur, k), g.get(fc.cur, "$alloc"))
+		}
 	}
 }
 
